@@ -49,7 +49,11 @@ THEOREMS = ["NumberTest.floor_shift", "NumberTest.cdf_shift", "NumberTest.pmf_cl
             "NumberTest.nbd_law_mean", "NumberTest.nbd_law_var", "NumberTest.nbd_params_admissible_iff",
             "NumberTest.nbd_delta1_succ_eq_one_sub_delta2", "NumberTest.nbd_delta_mono_count_le",
             "NumberTest.public_nbd_test_tails", "NumberTest.catalog_public_eq", "NumberTest.catalog_public_perm",
-            "NumberTest.catalog_ntest_mono_count"]
+            "NumberTest.catalog_ntest_mono_count",
+            # phase 2: array-valued scale factors, forecasts that filter on the fly, history independence
+            "NumberTest.array_scale_total", "NumberTest.array_scale_const", "NumberTest.public_array_number_test_tails",
+            "NumberTest.cf_ntest_filtered", "NumberTest.cf_ntest_unfiltered", "NumberTest.cf_pass_idempotent",
+            "NumberTest.cf_ntest_history"]
 TRUSTED = ["Lean 4.33 kernel", "axioms: propext, Classical.choice, Quot.sound at most",
            "scipy.stats.poisson.cdf(x, mu) / nbinom.cdf(x, r, p) compute the finite sums of the mass function up to floor(x) "
            "(0 for x < 0); compared numerically with the Float instance of the model on every run, not proved",
@@ -88,6 +92,12 @@ def _close(a, b, rel=1e-9, abs_=0.0):
     if not (math.isfinite(a) and math.isfinite(b)):
         return a == b
     return abs(a - b) <= abs_ + rel * max(abs(a), abs(b))
+
+
+def _anchor(n, mu):
+    """anchor index of the stable evaluation; a non-finite or negative total (possible only for a broken implementation)
+    must not crash the harness"""
+    return min(n, int(mu)) if (math.isfinite(mu) and mu >= 0) else 0
 
 
 def _model_tol(n):
@@ -143,11 +153,20 @@ def _pois_oracle(run, case, mu, n, d1, d2):
     return ok, pmf
 
 
-def _pois_case(run, drv, pending, rng, mu, n, tag, np_types=False):
+EPS_POOL = [1e-3, 0.25, 0.5, 0.999, 1e-8, 1e-6, 0.1]
+
+
+def _pois_case(run, drv, pending, rng, mu, n, tag, np_types=False, eps=None):
     from csep.core import poisson_evaluations as pe
     case = dict(kind="pois", mu=repr(float(mu)), n=int(n), tag=tag)
+    if eps is not None:
+        case["eps"] = repr(eps)
     try:
-        if np_types:
+        if eps is not None:
+            # the documented third argument: any 0 < epsilon < 1 must give the same two tails
+            d1, d2 = pe._number_test_ndarray(float(mu), int(n), epsilon=eps) if n % 2 else \
+                pe._number_test_ndarray(float(mu), int(n), eps)
+        elif np_types:
             d1, d2 = pe._number_test_ndarray(numpy.float64(mu), numpy.int64(n))
         else:
             d1, d2 = pe._number_test_ndarray(float(mu), int(n))
@@ -158,9 +177,11 @@ def _pois_case(run, drv, pending, rng, mu, n, tag, np_types=False):
     _, pmf = _pois_oracle(run, case, mu, n, d1, d2)
     run.case(case, ("pois", float(mu), n) if (n >= 1 and pmf > 1e-12) else None)
     run.count("pois:" + ("n=0" if n == 0 else ("visible" if pmf > 1e-12 else "far-tail")))
-    i = drv.ask(f"c07_pois {bits(mu)} {n} {min(n, int(mu))} {bits(EPS)}")
-    j = drv.ask(f"c07_poisd {bits(mu)} {n} {bits(EPS)}") if (mu < 700 and n <= 3000) else None
+    i = drv.ask(f"c07_pois {bits(mu)} {n} {_anchor(n, mu)} {bits(eps if eps is not None else EPS)}")
+    j = drv.ask(f"c07_poisd {bits(mu)} {n} {bits(eps if eps is not None else EPS)}") if (mu < 700 and n <= 3000) else None
     pending.append(("pois", case, i, j, d1, d2, n))
+    if eps is not None:
+        run.count("pois:explicit-epsilon")
     return d1, d2
 
 
@@ -185,12 +206,16 @@ def _nbd_oracle(run, case, mu, var, n, d1, d2):
     return pmf
 
 
-def _nbd_case(run, drv, pending, rng, mu, var, n, tag, vtype="float"):
+def _nbd_case(run, drv, pending, rng, mu, var, n, tag, vtype="float", eps=None):
     from csep.core import binomial_evaluations as be
     var = float(_as_var(var, vtype, mu))
     case = dict(kind="nbd", mu=repr(float(mu)), var=repr(float(var)), n=int(n), tag=tag, vtype=vtype)
+    if eps is not None:
+        case["eps"] = repr(eps)
     try:
-        if vtype == "float":
+        if eps is not None:
+            d1, d2 = be._nbd_number_test_ndarray(float(mu), int(n), float(var), epsilon=eps)
+        elif vtype == "float":
             d1, d2 = be._nbd_number_test_ndarray(float(mu), int(n), float(var))
         else:
             d1, d2 = be._nbd_number_test_ndarray(numpy.float64(mu), numpy.int64(n), _as_var(var, vtype, mu))
@@ -201,8 +226,10 @@ def _nbd_case(run, drv, pending, rng, mu, var, n, tag, vtype="float"):
     pmf = _nbd_oracle(run, case, mu, var, n, d1, d2)
     run.case(case, ("nbd", float(mu), float(var), n) if (n >= 1 and pmf > 1e-12) else None)
     run.count("nbd:" + ("n=0" if n == 0 else ("visible" if pmf > 1e-12 else "far-tail")))
-    i = drv.ask(f"c07_nbd {bits(mu)} {bits(var)} {n} {min(n, int(mu))} {bits(EPS)}")
+    i = drv.ask(f"c07_nbd {bits(mu)} {bits(var)} {n} {_anchor(n, mu)} {bits(eps if eps is not None else EPS)}")
     pending.append(("nbd", case, i, None, d1, d2, n))
+    if eps is not None:
+        run.count("nbd:explicit-epsilon")
     return d1, d2
 
 
@@ -267,6 +294,16 @@ def _catalog_array(n, reg, seed, extras=None):
         perm = g.permutation(tot)
         for f in ('latitude', 'longitude', 'magnitude'):
             arr[f] = arr[f][perm]
+    if tot and seed % 4 == 0:
+        # unreported depth, the instant 1970-01-01T00:00:00 (epoch 0 is falsy), events sharing an origin time
+        arr['depth'][int(g.integers(tot))] = numpy.nan
+        arr['origin_time'][0] = 0
+        if tot > 2:
+            arr['origin_time'][2] = arr['origin_time'][1]
+    if tot and seed % 7 == 0:
+        # columns in non-native byte order
+        be_dtype = [(nm_, t.replace('<', '>')) for nm_, t in _DTYPE]
+        arr = arr.astype(be_dtype)
     return arr
 
 
@@ -315,7 +352,7 @@ def _gen_public(rng):
         scale = rng.choice([0.5, 2.0, 1 / 365.25, 10 ** rng.uniform(-3, 3), 7 / 365])
     spec["scale"] = scale
     f, data, _ = _forecast(spec, _region(*dims))
-    mu = float(f.event_count)
+    mu = mu_t                 # the total the forecast is built to have (the generator does not consult the implementation)
     n = _gen_n(rng, mu) if rng.random() < 0.9 else rng.randint(0, 300)
     if n > 20000 and rng.random() < 0.7:
         n = rng.randint(0, 3000)
@@ -340,7 +377,11 @@ def _public_case(run, drv, pending, case):
     from csep.core import poisson_evaluations as pe, binomial_evaluations as be
     reg = _region(*case["dims"])
     f, data, scale = _forecast(case["fspec"], reg)
-    mu = float(f.event_count)
+    try:
+        mu = float(f.event_count)
+    except Exception as e:
+        run.oracle_failure(case, f"event_count of the forecast is not a number: {type(e).__name__}: {e}")
+        return
     extras = case.get("extras")
     n = case["n_in"] + (sum(extras) if extras else 0)      # the number of events of the observed catalog
     cat = _catalog(case["n_in"], reg, case["cat_seed"], extras)
@@ -372,11 +413,11 @@ def _public_case(run, drv, pending, case):
         run.count("public:uncut-catalog" + (":below-min-mag" if extras[0] else "") + (":outside" if extras[2] else ""))
     if nbd:
         pmf = _nbd_oracle(run, case, mu, var, n, d1, d2)
-        i = drv.ask(f"c07_nbd {bits(mu)} {bits(var)} {n} {min(n, int(mu))} {bits(EPS)}")
+        i = drv.ask(f"c07_nbd {bits(mu)} {bits(var)} {n} {_anchor(n, mu)} {bits(EPS)}")
         pending.append(("nbd", case, i, None, d1, d2, n))
     else:
         _, pmf = _pois_oracle(run, case, mu, n, d1, d2)
-        i = drv.ask(f"c07_pois {bits(mu)} {n} {min(n, int(mu))} {bits(EPS)}")
+        i = drv.ask(f"c07_pois {bits(mu)} {n} {_anchor(n, mu)} {bits(EPS)}")
         pending.append(("pois", case, i, None, d1, d2, n))
     run.case(case, (case["kind"], mu, var, n, tuple(extras or ())) if (n >= 1 and pmf > 1e-12) else None)
     run.count(case["kind"] + (":scaled" if scale else ":unscaled"))
@@ -392,11 +433,12 @@ def _public_case(run, drv, pending, case):
                 var2 = float(case["var2"]) if nbd else None
                 res2 = be.negative_binomial_number_test(f, cat, var2) if nbd else pe.number_test(f, cat)
                 e1, e2 = float(res2.quantile[0]), float(res2.quantile[1])
+                ec2 = float(f.event_count)
             except Exception as e:
                 run.oracle_failure(case2, f"exception {type(e).__name__}: {e}")
                 return
-            if not _close(float(f.event_count), mu2, 1e-12):
-                run.oracle_failure(case2, f"after scale({s2!r}) the forecast total is {float(f.event_count)!r}, "
+            if not _close(ec2, mu2, 1e-12):
+                run.oracle_failure(case2, f"after scale({s2!r}) the forecast total is {ec2!r}, "
                                           f"the rescaled rates sum to {mu2!r}")
             if res2.observed_statistic != n:
                 run.oracle_failure(case2, f"observed statistic {res2.observed_statistic!r} is not the number of events {n}")
@@ -470,9 +512,18 @@ def _catalog_case(run, drv, pending, rng, tier, sizes=None, nobs=None, extras=No
         run.count("catalog:uncut-catalogs")
 
 
-def _catalog_verdict(run, drv, pending, case, sizes, nobs, res, res2):
+def _catalog_verdict(run, drv, pending, case, sizes, nobs, res, res2, cf=None):
     """oracle + model query for one catalog N-test whose synthetic catalogs NOW hold `sizes` events, the observation `nobs`"""
-    d1, d2 = res.quantile
+    try:
+        d1, d2 = res.quantile
+        d1 = None if d1 is None else float(d1); d2 = None if d2 is None else float(d2)
+        td1 = [int(v) for v in res.test_distribution]
+        td2 = [int(v) for v in res2.test_distribution]
+        q2 = tuple(None if v is None else float(v) for v in res2.quantile)
+    except Exception as e:
+        run.oracle_failure(case, f"result of the catalog N-test unreadable ({type(e).__name__}: {e}): quantile "
+                                 f"{getattr(res, 'quantile', None)!r}")
+        return
     ncat = len(sizes)
     kge = sum(1 for s in sizes if s >= nobs)
     kle = sum(1 for s in sizes if s <= nobs)
@@ -483,21 +534,71 @@ def _catalog_verdict(run, drv, pending, case, sizes, nobs, res, res2):
     if not (d1 == kge / ncat and d2 == kle / ncat):
         run.oracle_failure(case, f"quantile={d1!r},{d2!r} expected {kge}/{ncat} {kle}/{ncat} (catalog sizes {sizes[:20]}, "
                                  f"n_obs {nobs})")
-    if tuple(res2.quantile) != (d1, d2) or list(res.test_distribution) != [int(s) for s in sizes] \
-            or list(res2.test_distribution) != [int(s) for s in sizes]:
+    if q2 != (d1, d2) or td1 != [int(s) for s in sizes] or td2 != [int(s) for s in sizes]:
         run.oracle_failure(case, f"second pass / test distribution differ from the catalog sizes {sizes[:20]}: "
-                                 f"{res2.quantile!r} {list(res.test_distribution)[:20]!r} "
-                                 f"{list(res2.test_distribution)[:20]!r}")
+                                 f"{q2!r} {td1[:20]!r} {td2[:20]!r}")
     if Fraction(kge + kle, ncat) != 1 + Fraction(keq, ncat):
         run.oracle_failure(case, "delta1+delta2 != 1 + P(N=n_obs)")
     run.case(case, (case["kind"], tuple(sorted(sizes)), nobs, str(case.get("seq"))) if keq > 0 else None)
     run.count("catalog:" + ("tie-with-obs" if keq else ("below" if kle == 0 else ("above" if kge == 0 else "between"))))
     i = drv.ask(f"c07_cat {','.join(str(int(s)) for s in sizes)} {int(nobs)}")
     pending.append(("cat", case, i, None, d1, d2, ncat))
+    if cf:
+        pending.append(("cat", case, drv.ask(cf), None, d1, d2, ncat))
 
 
 # ----------------------------------------------------------------------------- call sequences on one catalog forecast
-SEQ_CUTS = [4.0, 4.5, 4.25, 3.7]     # region magnitudes are [4.0, 4.5]; events at 4.25 / 4.75, extras below 4.0
+FILTER_POOL = ["magnitude >= 4.5", "magnitude >= 4.25", "magnitude < 4.5", "longitude < 0.1", "latitude >= 0.1",
+               "magnitude >= 3.9", "magnitude > 4.75", "longitude >= 0.0"]
+_OPS = {">=": numpy.greater_equal, "<": numpy.less, ">": numpy.greater, "<=": numpy.less_equal}
+# input classes on which the unchanged code does not satisfy the property and which wait for a decision (kept out of the
+# generators): an ABORTED pass (next()/break) before the N-test makes the test count only the remaining catalogs - this
+# is the known finding D27 of C13 ("catalog-forecast:aborted-pass-not-restarted"), the same defect seen through C07
+AWAITING_DECISION = ["catalog-forecast: aborted pass (next()/break) before the catalog N-test (D27, known under C13)"]
+SEQ_CUTS = [4.0, 4.5, 4.25, 3.7]
+
+
+class _SimForecast:
+    """bookkeeping of the harness for a CatalogForecast: which rows every catalog holds / hands out, computed on the
+    arrays the harness generated (numpy comparisons only, nothing of csep)"""
+
+    def __init__(self, arrays, mode, cfg, nx=2, ny=2):
+        self.orig = [a.copy() for a in arrays]
+        self.cur = [a.copy() for a in arrays]
+        self.mode, self.cfg = mode, cfg
+        self.apply = bool(cfg and cfg["apply"])
+        self.nx, self.ny = nx, ny
+        self.passes = 0
+
+    def keep(self, a):
+        m = numpy.ones(len(a), dtype=bool)
+        for f in self.cfg["filters"]:
+            name, op, val = f.split()
+            m &= _OPS[op](a[name], float(val))
+        if self.cfg["spatial"]:
+            m &= (a['longitude'] >= 0.0) & (a['longitude'] < self.nx * 0.1) & (a['latitude'] >= 0.0) & (a['latitude'] < self.ny * 0.1)
+        return m
+
+    def full_pass(self, mutate=None, chosen=()):
+        src = self.orig if self.mode == "nostore" else self.cur
+        out = []
+        for j, a in enumerate(src):
+            if self.apply:
+                a = a[self.keep(a)]
+            if mutate is not None and j in chosen:
+                a = mutate(a)
+            out.append(a)
+        if self.mode != "nostore":
+            self.cur = out
+        if self.mode == "store" and self.passes == 0:
+            self.apply = False            # the stored catalogs are the filtered ones, they are not filtered again
+        self.passes += 1
+        return [len(a) for a in out]
+
+    def flags(self):
+        """per catalog, per row of the ORIGINAL arrays: 1 = kept by the configured filters, 0 = dropped"""
+        return [[int(v) for v in (self.keep(a) if self.cfg else numpy.ones(len(a), dtype=bool))] for a in self.orig]
+     # region magnitudes are [4.0, 4.5]; events at 4.25 / 4.75, extras below 4.0
 
 
 def _gen_seq_case(rng, tier):
@@ -518,7 +619,21 @@ def _gen_seq_case(rng, tier):
     subset = rng.choice(["all", "all", "even", "first"])
     seq = dict(mode=mode, pre=pre, mut=mut, where=where, subset=subset, cut=rng.choice(SEQ_CUTS),
                seeds=[rng.randrange(2 ** 31) for _ in sizes], repl=[rng.randint(0, 9), rng.randrange(2 ** 31)])
-    return dict(kind="catalog-seq", sizes=sizes, extras=extras, seq=seq, obs_pick=rng.randrange(6), tag="catalog-seq")
+    # configuration of the forecast: filters it applies on the fly while it is iterated (constructor keywords
+    # filters / apply_filters / filter_spatial); half of the configured forecasts meet the N-test as their FIRST pass
+    cfg = None
+    if rng.random() < 0.55:
+        flt = rng.sample(FILTER_POOL, rng.choice([0, 1, 1, 2]))
+        cfg = dict(apply=rng.random() < 0.75, filters=flt, as_str=(len(flt) == 1 and rng.random() < 0.3),
+                   spatial=rng.random() < 0.4)
+        if rng.random() < 0.5:
+            seq["pre"] = "none"
+            if mode == "store":
+                seq["where"] = "in-loop"
+        if rng.random() < 0.4:
+            seq["mut"] = "none"
+    return dict(kind="catalog-seq", sizes=sizes, extras=extras, seq=seq, cfg=cfg, obs_pick=rng.randrange(6),
+                tag="catalog-seq")
 
 
 def _write_forecast_csv(path, arrays):
@@ -542,37 +657,50 @@ def _catalog_seq_case(run, drv, pending, case):
     reg = _region(2, 2, 2)
     seq = case["seq"]
     arrays = [_catalog_array(k, reg, sd, e) for k, e, sd in zip(case["sizes"], case["extras"], seq["seeds"])]
-    mags = [numpy.array(a['magnitude'], dtype=float) for a in arrays]
     before = [len(a) for a in arrays]
     idx = list(range(len(arrays)))
     chosen = idx if seq["subset"] == "all" else (idx[::2] if seq["subset"] == "even" else idx[:1])
     cut = float(seq["cut"])
-    after = list(before)
-    for j in chosen:
-        if seq["mut"] in ("filter-str", "filter-list"):
-            after[j] = int(numpy.count_nonzero(mags[j] >= cut))
-        elif seq["mut"] == "truncate":
-            after[j] = before[j] // 2
-        elif seq["mut"] == "replace":
-            after[j] = seq["repl"][0]
-    persistent = seq["mode"] != "nostore"
-    expect = after if persistent else before
+    cfg = case.get("cfg")
+    sim = _SimForecast(arrays, seq["mode"], cfg)
+    first_sizes = sim.full_pass() if seq["pre"] != "none" else None
+    if seq["mut"] == "replace":
+        if seq["where"] == "in-loop" or (seq["mode"] != "memory" and sim.passes == 0):
+            sim.full_pass()
+        for j in chosen:
+            sim.cur[j] = _catalog_array(seq["repl"][0], reg, seq["repl"][1] + j)
+    elif seq["mut"] != "none":
+        fn = (lambda a: a[a['magnitude'] >= cut]) if seq["mut"].startswith("filter") else (lambda a: a[:len(a) // 2])
+        if seq["where"] == "in-loop":
+            sim.full_pass(fn, chosen)
+        else:
+            for j in chosen:
+                sim.cur[j] = fn(sim.cur[j])
+    passes_before_test = sim.passes
+    expect = sim.full_pass()
+    if sim.full_pass() != expect:
+        raise RuntimeError("harness bookkeeping: a second pass differs")
     # n_obs: tied with a current size, with a size before the change, or in between
     cands = sorted(set(expect + before))
     pick = case["obs_pick"]
     nobs = [expect[0], before[0], cands[len(cands) // 2], max(cands), min(cands), max(before[-1] - 1, 0)][pick]
+    kw = {}
+    if cfg:
+        kw = dict(apply_filters=cfg["apply"], filter_spatial=cfg["spatial"])
+        if cfg["filters"]:
+            kw["filters"] = cfg["filters"][0] if cfg["as_str"] else list(cfg["filters"])
     tmpdir = None
     try:
         with contextlib.redirect_stdout(io.StringIO()):
             if seq["mode"] == "memory":
                 fc = CatalogForecast(catalogs=[CSEPCatalog(data=a.copy(), region=reg[0], catalog_id=j)
-                                               for j, a in enumerate(arrays)], region=reg[0], name="gen")
+                                               for j, a in enumerate(arrays)], region=reg[0], name="gen", **kw)
             else:
                 tmpdir = tempfile.mkdtemp(prefix="c07_", dir=os.environ.get("TMPDIR", "/tmp"))
                 path = os.path.join(tmpdir, "forecast.csv")
                 _write_forecast_csv(path, arrays)
                 fc = csep.load_catalog_forecast(path, region=reg[0], store=(seq["mode"] == "store"), name="gen",
-                                                apply_filters=False)
+                                                **(kw or dict(apply_filters=False)))
             obs = _catalog(nobs, reg, 77)
             first = None
             if seq["pre"] == "ntest":
@@ -614,10 +742,26 @@ def _catalog_seq_case(run, drv, pending, case):
     finally:
         if tmpdir:
             shutil.rmtree(tmpdir, ignore_errors=True)
-    if first is not None and list(first.test_distribution) != before:
-        run.oracle_failure(case, f"N-test on the fresh forecast: distribution {list(first.test_distribution)[:20]} is not "
-                                 f"the catalog sizes {before[:20]}")
-    _catalog_verdict(run, drv, pending, case, expect, nobs, res, res2)
+    try:
+        first_td = None if first is None else [int(v) for v in first.test_distribution]
+    except Exception as e:
+        run.oracle_failure(case, f"test_distribution of the first N-test unreadable: {type(e).__name__}: {e}")
+        return
+    if first is not None and first_td != first_sizes:
+        run.oracle_failure(case, f"N-test on the fresh forecast: distribution {first_td[:20]} is not "
+                                 f"the sizes of the catalogs the forecast hands out {first_sizes[:20]}")
+    # Lean model of the forecast (CF): only for histories made of full passes (no change by the caller)
+    cf = None
+    if seq["mut"] == "none":
+        fl = sim.flags()
+        cats = ";".join(",".join(map(str, c)) or "-" for c in fl)
+        if not any(fl):
+            cats = "-"
+        cf = (f"c07_cf {1 if (cfg and cfg['apply']) else 0} {passes_before_test} {len(fl)} {cats} {int(nobs)}")
+    _catalog_verdict(run, drv, pending, case, expect, nobs, res, res2, cf=cf)
+    if cfg:
+        run.count("seq-cfg:" + ("apply" if cfg["apply"] else "configured-not-applied") + (":spatial" if cfg["spatial"] else "")
+                  + (":first-pass" if passes_before_test == 0 else ":later-pass"))
     run.count(f"seq:{seq['mode']}:{seq['mut']}" + (":changed" if expect != before else ""))
     run.count(f"seq-pre:{seq['pre']}")
 
@@ -637,6 +781,11 @@ def _gen_hist(rng):
     total = min(max(_gen_mu(rng), 1e-4), 2e4)
     hist = []
     for _ in range(rng.choice([0, 1, 2, 2, 3, 4])):
+        if rng.random() < 0.3:
+            # scale() documents "int, float, or ndarray": a factor per magnitude bin / per cell / per bin / 0-d / 1-element
+            hist.append(dict(arr=rng.choice(["mag", "cell", "full", "0d", "one", "row"]), seed=rng.randrange(2 ** 32),
+                             zero=rng.random() < 0.2))
+            continue
         v = rng.choice(HIST_POOL) if rng.random() < 0.6 else 10 ** rng.uniform(-3, 3)
         hist.append(v if isinstance(v, int) else repr(float(v)))
     mu_guess = total
@@ -668,6 +817,11 @@ def _hist_forecast(case, reg):
     else:
         w = g.uniform(0.01, 1.0, size=shape)
         base = w / w.sum() * total
+        if g.random() < 0.3 and base.size > 1:
+            # bins without rate and bins with rates far below machine epsilon next to ordinary ones
+            mask = g.random(shape) < 0.35
+            mask.flat[int(g.integers(base.size))] = False
+            base[mask] = g.choice([0.0, 5e-324, 1e-300, 1e-40, 1e-17], size=int(mask.sum()))
         if layout == "C":
             data = numpy.ascontiguousarray(base)
         elif layout == "F":
@@ -681,6 +835,18 @@ def _hist_forecast(case, reg):
     f = GriddedForecast(start_time=datetime.datetime(2020, 1, 1), end_time=datetime.datetime(2021, 1, 1),
                         data=data, region=region, magnitudes=mags, name="gen")
     return f, data
+
+
+def _factor(spec, shape):
+    """the argument of scale(): an int / float, or an ndarray that broadcasts against the (cells, magnitudes) rates"""
+    if isinstance(spec, dict):
+        g = numpy.random.default_rng(spec["seed"])
+        shp = {"mag": (shape[1],), "cell": (shape[0], 1), "full": shape, "0d": (), "one": (1,), "row": (1, shape[1])}[spec["arr"]]
+        v = numpy.asarray(g.choice([0.25, 0.5, 1.0, 2.0, 0.1, 3.0, 1 / 365.25], size=shp) if shp else g.choice([0.5, 2.0, 0.1]))
+        if spec.get("zero") and v.size > 1:
+            v = v.copy(); v.flat[0] = 0.0
+        return v
+    return spec if isinstance(spec, int) else float(spec)
 
 
 def _as_var(var, vtype, mu=None):
@@ -711,7 +877,7 @@ def _hist_case(run, drv, pending, case):
         n, cat_mags = 0, numpy.zeros(0)
         run.count("hist:empty-catalog-without-array")
     nbd = case["kind"].endswith("nbd")
-    hist = [v if isinstance(v, int) else float(v) for v in case["hist"]]
+    hist = [_factor(v, data.shape) for v in case["hist"]]
     snapshot = data.copy()
     # what happens between two tests: one scale call, or two chained ones (f.scale(a).scale(b))
     if case["chain"] and len(hist) >= 2:
@@ -725,19 +891,22 @@ def _hist_case(run, drv, pending, case):
             for v in actions[step - 1]:
                 r = r.scale(v)
                 applied.append(v)
-            if r is not f:
-                run.oracle_failure(case, "scale() does not return the forecast object")
         of = case.get("obs_filter")
         if of and step == min(of[0], len(actions)) and step > 0 and n > 0:
             cat.filter(f"magnitude >= {float(of[1])!r}")
             n = int(numpy.count_nonzero(cat_mags >= float(of[1])))
             cat_mags = cat_mags[cat_mags >= float(of[1])]
             run.count("hist:observed-catalog-filtered-between-tests")
-        factor = float(applied[-1]) if applied else 1.0
-        mu_ref = base_total * factor
+        last = applied[-1] if applied else 1.0
+        is_arr = isinstance(last, numpy.ndarray)
+        if is_arr:
+            fflat = [float(v) for v in numpy.broadcast_to(last, data.shape).ravel().tolist()]
+            mu_ref = math.fsum(b * c for b, c in zip(flat, fflat))
+            run.count("hist:array-valued-scale:" + ("x".join(map(str, last.shape)) or "0d"))
+        else:
+            mu_ref = base_total * float(last)
         if not (1e-6 <= mu_ref <= 1e5):
             continue
-        applied = list(applied)
         c = dict(case, step=step, mu=repr(mu_ref), n=n)
         try:
             mu = float(f.event_count)
@@ -754,22 +923,188 @@ def _hist_case(run, drv, pending, case):
             run.oracle_failure(c, f"exception {type(e).__name__}: {e}")
             return
         if not _close(mu, mu_ref, 1e-12):
-            run.oracle_failure(c, f"after the scale history {applied!r} the forecast total is {mu!r}; the stored rates sum to "
-                                  f"{base_total!r}, times the last factor = {mu_ref!r}")
+            run.oracle_failure(c, f"after the scale history {case['hist'][:len(applied)]!r} the forecast total is {mu!r}; the "
+                                  f"stored rates sum to {base_total!r}, the rates x last factor to {mu_ref!r}")
         if res.observed_statistic != n or cat.event_count != n:
             run.oracle_failure(c, f"observed statistic {res.observed_statistic!r} is not the number of events {n}")
         if nbd:
             pmf = _nbd_oracle(run, c, mu_ref, var, n, d1, d2)
-            i = drv.ask(f"c07_pubn {','.join(bits(v) for v in flat)} {','.join(bits(v) for v in applied) or '-'} {n} {bits(var)}")
+            if is_arr:
+                i = drv.ask(f"c07_puban {','.join(bits(v) for v in flat)} {','.join(bits(v) for v in fflat)} {n} {bits(var)}")
+            else:
+                i = drv.ask(f"c07_pubn {','.join(bits(v) for v in flat)} {','.join(bits(v) for v in applied if not isinstance(v, numpy.ndarray)) or '-'} {n} {bits(var)}")
             pending.append(("nbd", c, i, None, d1, d2, n))
         else:
             _, pmf = _pois_oracle(run, c, mu_ref, n, d1, d2)
-            i = drv.ask(f"c07_pub {','.join(bits(v) for v in flat)} {','.join(bits(v) for v in applied) or '-'} {n}")
+            if is_arr:
+                i = drv.ask(f"c07_puba {','.join(bits(v) for v in flat)} {','.join(bits(v) for v in fflat)} {n}")
+            else:
+                i = drv.ask(f"c07_pub {','.join(bits(v) for v in flat)} "
+                            f"{','.join(bits(v) for v in applied if not isinstance(v, numpy.ndarray)) or '-'} {n}")
             pending.append(("pois", c, i, None, d1, d2, n))
         run.case(c, (c["kind"], mu_ref, var, n, step, case["layout"]) if (n >= 1 and pmf > 1e-12) else None)
         run.count(f"hist:{case['layout']}:step{min(step, 3)}" + (":nbd" if nbd else ""))
     if not numpy.array_equal(snapshot, data):
         run.oracle_failure(case, "the number test / scale changed the stored rates of the forecast")
+
+
+
+# ----------------------------------------------------------------------------- sizes
+def _big_grid_case(run, drv, pending):
+    """a forecast with more than 2^16 space-magnitude bins (66000 cells x 2) and a catalog of more than 2^16 events"""
+    from csep.core import poisson_evaluations as pe, binomial_evaluations as be
+    from csep.core.forecasts import GriddedForecast
+    reg = _region(330, 200, 2)
+    region, mags, nx, ny, nm = reg
+    data = numpy.full((nx * ny, nm), 0.5)
+    data[::3, 0] = 0.75
+    f = GriddedForecast(start_time=datetime.datetime(2020, 1, 1), end_time=datetime.datetime(2021, 1, 1), data=data,
+                        region=region, magnitudes=mags, name="big")
+    mu_ref = math.fsum(data.ravel().tolist())
+    n = 71003
+    cat = _catalog(n, reg, 12345)
+    for nbd in (False, True):
+        case = dict(kind="big-grid", nbd=nbd, mu=repr(mu_ref), n=n, tag="sizes")
+        try:
+            var = mu_ref * 3.0
+            res = be.negative_binomial_number_test(f, cat, var) if nbd else pe.number_test(f, cat)
+            d1, d2 = float(res.quantile[0]), float(res.quantile[1])
+            if int(res.observed_statistic) != n:
+                run.oracle_failure(case, f"observed statistic {res.observed_statistic!r} is not the number of events {n}")
+            if not _close(float(f.event_count), mu_ref, 1e-12):
+                run.oracle_failure(case, f"forecast total {float(f.event_count)!r}, the rates sum to {mu_ref!r}")
+        except Exception as e:
+            run.oracle_failure(case, f"exception {type(e).__name__}: {e}")
+            continue
+        if nbd:
+            _nbd_oracle(run, case, mu_ref, var, n, d1, d2)
+        else:
+            _pois_oracle(run, case, mu_ref, n, d1, d2)
+        run.case(case, ("big-grid", nbd))
+        run.count("sizes:more-than-65536-bins-and-events")
+
+
+# ----------------------------------------------------------------------------- sessions on shared objects
+SESSION_OPS = ["scale", "scale", "ntest", "ntest", "paired_t", "w_test", "binary_t", "target_rates", "spatial_counts",
+               "magnitude_counts", "cl_test", "cat_filter", "event_count"]
+
+
+def _gen_session(rng):
+    """two or three gridded forecasts built on ONE rates array and ONE region, one observed catalog; a random sequence of
+    public calls on them (scalings with scalars and arrays, N-tests, OTHER evaluations that read the same objects with
+    scale=True, marginal reads, an in-place filter of the catalog); after every step every forecast is N-tested"""
+    dims = [rng.randint(1, 3), rng.randint(1, 3), rng.randint(1, 3)]
+    steps = []
+    for _ in range(rng.randint(4, 8)):
+        op = rng.choice(SESSION_OPS)
+        st = dict(op=op, f=rng.randrange(3), g=rng.randrange(3))
+        if op == "scale":
+            st["v"] = (dict(arr=rng.choice(["mag", "cell", "full", "0d"]), seed=rng.randrange(2 ** 32)) if rng.random() < 0.35
+                       else rng.choice([0.5, 2.0, 1, 3, repr(1 / 365.25), repr(10 ** rng.uniform(-2, 2))]))
+        if op == "cat_filter":
+            st["cut"] = rng.choice([4.5, 4.25, 5.0])
+        steps.append(st)
+    return dict(kind="session", dims=dims, wseed=rng.randrange(2 ** 32), total=repr(10 ** rng.uniform(-2, 3)),
+                n_in=rng.choice([0, 1, 2, 5, rng.randint(2, 60), rng.randint(2, 400)]), cat_seed=rng.randrange(2 ** 32),
+                nf=rng.choice([2, 3]), steps=steps, disp=repr(10 ** rng.uniform(-1, 2)), tag="session")
+
+
+def _session_case(run, drv, pending, case):
+    import warnings
+    from csep.core import poisson_evaluations as pe, binomial_evaluations as be
+    from csep.core.forecasts import GriddedForecast
+    reg = _region(*case["dims"])
+    region, mags, nx, ny, nm = reg
+    g = numpy.random.default_rng(case["wseed"])
+    w = g.uniform(0.01, 1.0, size=(nx * ny, nm))
+    data = w / w.sum() * float(case["total"])
+    snapshot = data.copy()
+    flat = [float(v) for v in data.ravel().tolist()]
+    fs = [GriddedForecast(start_time=datetime.datetime(2020, 1, 1), end_time=datetime.datetime(2020, 1, 1) +
+                          datetime.timedelta(days=[365, 30, 1826][k]), data=data, region=region, magnitudes=mags, name=f"F{k}")
+          for k in range(case["nf"])]
+    factors = [1.0] * case["nf"]                 # bookkeeping: the factor each forecast object carries
+    cat = _catalog(case["n_in"], reg, case["cat_seed"])
+    cat_mags = numpy.array(cat.get_magnitudes(), dtype=float)
+    n = case["n_in"]
+
+    def verify(step):
+        for k, f in enumerate(fs):
+            last = factors[k]
+            fflat = [float(v) for v in numpy.broadcast_to(numpy.asarray(last, dtype=float), data.shape).ravel().tolist()]
+            mu_ref = math.fsum(b * c for b, c in zip(flat, fflat))
+            if not (1e-6 <= mu_ref <= 1e5):
+                continue
+            nbd = (step + k) % 3 == 0
+            c = dict(case, step=step, f=k, mu=repr(mu_ref), n=n)
+            try:
+                if nbd:
+                    var = mu_ref * (1.0 + float(case["disp"]))
+                    c["var"] = repr(var)
+                    res = be.negative_binomial_number_test(f, cat, var)
+                else:
+                    res = pe.number_test(f, cat)
+                d1, d2 = float(res.quantile[0]), float(res.quantile[1])
+                obs_stat = int(res.observed_statistic)
+            except Exception as e:
+                run.oracle_failure(c, f"after step {step} ({case['steps'][step - 1]['op'] if step else 'start'}): "
+                                      f"exception {type(e).__name__}: {e}")
+                return False
+            if obs_stat != n:
+                run.oracle_failure(c, f"after step {step}: observed statistic {obs_stat} is not the number of events {n}")
+            if nbd:
+                pmf = _nbd_oracle(run, c, mu_ref, var, n, d1, d2)
+                i = drv.ask(f"c07_puban {','.join(bits(v) for v in flat)} {','.join(bits(v) for v in fflat)} {n} {bits(var)}")
+                pending.append(("nbd", c, i, None, d1, d2, n))
+            else:
+                _, pmf = _pois_oracle(run, c, mu_ref, n, d1, d2)
+                i = drv.ask(f"c07_puba {','.join(bits(v) for v in flat)} {','.join(bits(v) for v in fflat)} {n}")
+                pending.append(("pois", c, i, None, d1, d2, n))
+            run.case(c, ("session", case["wseed"], step, k) if (n >= 1 and pmf > 1e-12) else None)
+        if not numpy.array_equal(snapshot, data):
+            run.oracle_failure(dict(case, step=step), f"after step {step} the rates array handed to the forecasts has changed")
+            return False
+        return True
+
+    if not verify(0):
+        return
+    for i, st in enumerate(case["steps"], start=1):
+        k, k2 = st["f"] % case["nf"], st["g"] % case["nf"]
+        op = st["op"]
+        try:
+            with warnings.catch_warnings(), numpy.errstate(all="ignore"), contextlib.redirect_stdout(io.StringIO()):
+                warnings.simplefilter("ignore")
+                if op == "scale":
+                    v = _factor(st["v"], data.shape)
+                    fs[k].scale(v)
+                    factors[k] = v
+                elif op == "ntest":
+                    pe.number_test(fs[k], cat)
+                elif op == "paired_t" and n >= 2:
+                    pe.paired_t_test(fs[k], fs[k2], cat, scale=True)
+                elif op == "w_test" and n >= 2:
+                    pe.w_test(fs[k], fs[k2], cat, scale=True)
+                elif op == "binary_t" and n >= 2:
+                    be.binary_paired_t_test(fs[k], fs[k2], cat, scale=True)
+                elif op == "target_rates":
+                    fs[k].target_event_rates(cat, scale=True)
+                elif op == "spatial_counts":
+                    fs[k].spatial_counts()
+                elif op == "magnitude_counts":
+                    fs[k].magnitude_counts()
+                elif op == "cl_test":
+                    pe.conditional_likelihood_test(fs[k], cat, num_simulations=2, seed=1)
+                elif op == "event_count":
+                    _ = fs[k].event_count, cat.event_count
+                elif op == "cat_filter" and n > 0:
+                    cat.filter(f"magnitude >= {float(st['cut'])!r}")
+                    n = int(numpy.count_nonzero(cat_mags >= float(st["cut"])))
+                    cat_mags = cat_mags[cat_mags >= float(st["cut"])]
+        except Exception:
+            pass       # the intermediate calls are not this property's observables; what they leave behind is
+        run.count("session-op:" + op)
+        if not verify(i):
+            return
 
 
 # ----------------------------------------------------------------------------- float64 arguments of the floor
@@ -910,8 +1245,11 @@ def _corpus(run, drv, pending, rng):
     for mu, var, n in [(10.0, 23541.0, 3), (10.0, 10.01, 10), (1e5, 1e9, 99000), (1e-6, 1e-2, 0), (1e-6, 1e-2, 1),
                        (5.0, 50.0, 5)]:
         _nbd_case(run, drv, pending, rng, mu, var, n, "corpus")
-    for sizes, nobs in [([0, 3, 7, 7, 5, 2], 7), ([4], 4), ([4], 3), ([4], 5), ([0, 0, 0], 0), ([1, 2, 3], 0)]:
+    for sizes, nobs in [([0, 3, 7, 7, 5, 2], 7), ([4], 4), ([4], 3), ([4], 5), ([0, 0, 0], 0), ([1, 2, 3], 0),
+                        # more than 2^16 events in one catalog (and not a multiple of 2^16)
+                        ([70001, 3, 65536, 65537], 65536)]:
         _catalog_case(run, drv, pending, rng, "quick", sizes, nobs)
+    _big_grid_case(run, drv, pending)
 
 
 def run(run, rng, tier):
@@ -921,11 +1259,13 @@ def run(run, rng, tier):
     _corpus(run, drv, pending, rng)
     for _ in range(700 if quick else 10000):
         mu = _gen_mu(rng)
-        _pois_case(run, drv, pending, rng, mu, _gen_n(rng, mu), "grid", np_types=rng.random() < 0.3)
+        _pois_case(run, drv, pending, rng, mu, _gen_n(rng, mu), "grid", np_types=rng.random() < 0.3,
+                   eps=rng.choice(EPS_POOL) if rng.random() < 0.2 else None)
     for _ in range(500 if quick else 6000):
         mu = _gen_mu(rng)
         var = _gen_var(rng, mu)
-        _nbd_case(run, drv, pending, rng, mu, var, _gen_n(rng, mu, math.sqrt(var)), "grid")
+        _nbd_case(run, drv, pending, rng, mu, var, _gen_n(rng, mu, math.sqrt(var)), "grid",
+                  eps=rng.choice(EPS_POOL) if rng.random() < 0.2 else None)
     _flush(run, drv, pending)
     for _ in range(30 if quick else 250):
         _mono_grid(run, drv, pending, rng, "pois")
@@ -936,6 +1276,8 @@ def run(run, rng, tier):
         _public_case(run, drv, pending, _gen_public(rng))
     for _ in range(120 if quick else 2000):
         _hist_case(run, drv, pending, _gen_hist(rng))
+    for _ in range(40 if quick else 700):
+        _session_case(run, drv, pending, _gen_session(rng))
     _shift_cases(run, drv, pending, rng, 150 if quick else 5000)
     for _ in range(40 if quick else 600):
         _count_chain(run, drv, pending, rng, "pois")
@@ -959,6 +1301,10 @@ def replay(run, payload):
         _hist_case(run, drv, pending, {kk: v for kk, v in case.items() if kk not in ("mu", "n", "step", "var")})
     elif k == "catalog-seq":
         _catalog_seq_case(run, drv, pending, case)
+    elif k == "session":
+        _session_case(run, drv, pending, {kk: v for kk, v in case.items() if kk not in ("mu", "n", "step", "var", "f")})
+    elif k == "big-grid":
+        _big_grid_case(run, drv, pending)
     elif k == "shift":
         _shift_cases(run, drv, pending, rng, 0)
     elif k.startswith("chain-"):
@@ -968,10 +1314,11 @@ def replay(run, payload):
             else:
                 _nbd_case(run, drv, pending, rng, float(case["mu"]), float(case["var"]), n, "replay")
     elif k in ("pois", "public-pois"):
-        _pois_case(run, drv, pending, rng, float(case["mu"]), int(case["n"]), "replay")
+        _pois_case(run, drv, pending, rng, float(case["mu"]), int(case["n"]), "replay",
+                   eps=float(case["eps"]) if case.get("eps") else None)
     elif k in ("nbd", "public-nbd"):
         _nbd_case(run, drv, pending, rng, float(case["mu"]), float(case["var"]), int(case["n"]), "replay",
-                  vtype=case.get("vtype", "float"))
+                  vtype=case.get("vtype", "float"), eps=float(case["eps"]) if case.get("eps") else None)
     elif k == "catalog":
         _catalog_case(run, drv, pending, rng, "quick", case["sizes"], case["nobs"], case.get("extras"),
                       case.get("obs_extras"))
